@@ -29,7 +29,7 @@ CONSTANTS
     Interval,   \* expireSessionsInterval
     Exps,       \* values of SessionExpiration a Config entry may carry
     InitExp,
-    MaxTime, MaxLag, MaxChanges, MaxPend,
+    MaxTime, MaxLag, MaxChanges, MaxPend, MaxConfigs,
     None
 
 Sessions == Clients \cup Links \cup Pseudo
@@ -51,11 +51,11 @@ VARIABLES
     members,    \* the nick set of the one channel
     \* ---- history, for the properties only
     posts,      \* [Posting -> times at which the session's recent lines were proposed]
-    swept,      \* [Nodes -> what n's last sweep found: records [s, reply, la, T, exp, posts]]
-    changes,
+    swept,      \* [Nodes -> what n's sweep in progress found: records [s, reply, la, T, exp, prot]]
+    changes, configs,
     badDelivery \* a line was addressed to a session that had ended
 
-vars == <<now, leader, armed, todo, pend, alive, la, exp, nicks, members, posts, swept, changes, badDelivery>>
+vars == <<now, leader, armed, todo, pend, alive, la, exp, nicks, members, posts, swept, changes, configs, badDelivery>>
 state == <<alive, la, exp, nicks, members, badDelivery>>
 
 Perms(W) == {f \in [1..Cardinality(W) -> W] : \A i, j \in 1..Cardinality(W) : f[i] = f[j] => i = j}
@@ -63,7 +63,7 @@ Perms(W) == {f \in [1..Cardinality(W) -> W] : \A i, j \in 1..Cardinality(W) : f[
 Init ==
     /\ now = 0
     /\ leader \in Nodes
-    /\ armed = [n \in Nodes |-> 0]
+    /\ armed \in [Nodes -> {0, -1}]                  \* the nodes' timers are not in phase
     /\ todo = [n \in Nodes |-> <<>>]
     /\ pend = <<>>
     /\ alive = Sessions
@@ -73,22 +73,24 @@ Init ==
     /\ members = Sessions
     /\ posts = [s \in Posting |-> {0}]
     /\ swept = [n \in Nodes |-> {}]
-    /\ changes = 0
+    /\ changes = 0 /\ configs = 0
     /\ badDelivery = FALSE
 
 (* ------------------------------------------------------------------ time *)
 Advance ==
     /\ now < MaxTime
     /\ \A i \in 1..Len(pend) : now + 1 - pend[i].ts <= MaxLag
+    /\ \A n \in Nodes : todo[n] = <<>> => now - armed[n] < Interval     \* a due timer fires before time moves on
     /\ now' = now + 1
     /\ posts' = [s \in Posting |-> {p \in posts[s] : p >= now + 1 - Window}]
-    /\ UNCHANGED <<leader, armed, todo, pend, state, swept, changes>>
+    /\ UNCHANGED <<leader, armed, todo, pend, state, swept, changes, configs>>
 
 (* ------------------------------------------------- the timer loop of main() *)
 SweepSet == {s \in alive : Sweepable(Reply(s)) /\ TooIdle(la[s], now, exp)}
 
+\* prot: the session's recent lines that should have protected it from this tick (none, if all is well)
 SweepRec(s) == [s |-> s, reply |-> Reply(s), la |-> la[s], T |-> now, exp |-> exp,
-                posts |-> IF s \in Posting THEN posts[s] ELSE {}]
+                prot |-> IF s \in Posting THEN {p \in posts[s] : ProtectedBy(p, now, exp, MaxLag)} ELSE {}]
 
 \* case <-expireSessionsTimer: re-arm; if node.State() != raft.Leader { continue }; msgs := ExpireSessions()
 Tick(n) ==
@@ -100,7 +102,7 @@ Tick(n) ==
                   /\ todo' = [todo EXCEPT ![n] = order]
                   /\ swept' = [swept EXCEPT ![n] = {SweepRec(s) : s \in SweepSet}]
           ELSE UNCHANGED <<todo, swept>>
-    /\ UNCHANGED <<now, leader, pend, state, posts, changes>>
+    /\ UNCHANGED <<now, leader, pend, state, posts, changes, configs>>
 
 \* api.ApplyMessageWait(msg, 10*time.Second) for the next message of the slice: proposed
 \* only once the previous one has been applied; fails on a node that is not the leader
@@ -112,26 +114,31 @@ Propose(n) ==
                                    rec |-> CHOOSE r \in swept[n] : r.s = Head(todo[n])])
           ELSE UNCHANGED pend                       \* "Apply(): node is not the leader"
     /\ todo' = [todo EXCEPT ![n] = Tail(todo[n])]
-    /\ UNCHANGED <<now, leader, armed, state, posts, swept, changes>>
+    /\ swept' = IF Len(todo[n]) = 1 THEN [swept EXCEPT ![n] = {}] ELSE swept
+    /\ UNCHANGED <<now, leader, armed, state, posts, changes, configs>>
 
 (* ------------------------------------------------------------ the clients *)
+\* the model bounds the requests in flight (the sweep's own proposals are never refused)
+Room == Cardinality({i \in 1..Len(pend) : ~ (pend[i].k = "delete" /\ pend[i].sweep)}) < MaxPend
+
 \* POST .../message: accepted for a session the leader knows; the timestamp is taken now
 Post(s, cmd, x) ==
-    /\ s \in alive /\ leader # None /\ Len(pend) < MaxPend
+    /\ s \in alive /\ leader # None /\ Room
     /\ pend' = Append(pend, [k |-> "line", s |-> s, ts |-> now, cmd |-> cmd, x |-> x])
     /\ posts' = [posts EXCEPT ![s] = @ \cup {now}]
-    /\ UNCHANGED <<now, leader, armed, todo, state, swept, changes>>
+    /\ UNCHANGED <<now, leader, armed, todo, state, swept, changes, configs>>
 
 \* DELETE /robustirc/v1/<session>
 ClientDelete(s) ==
-    /\ s \in alive /\ leader # None /\ Len(pend) < MaxPend
+    /\ s \in alive /\ leader # None /\ Room
     /\ pend' = Append(pend, [k |-> "delete", s |-> s, ts |-> now, sweep |-> FALSE, by |-> leader, rec |-> None])
-    /\ UNCHANGED <<now, leader, armed, todo, state, posts, swept, changes>>
+    /\ UNCHANGED <<now, leader, armed, todo, state, posts, swept, changes, configs>>
 
 \* POST /config
 SetConfig(e) ==
-    /\ leader # None /\ Len(pend) < MaxPend
+    /\ leader # None /\ Room /\ configs < MaxConfigs
     /\ pend' = Append(pend, [k |-> "config", ts |-> now, e |-> e])
+    /\ configs' = configs + 1
     /\ UNCHANGED <<now, leader, armed, todo, state, posts, swept, changes>>
 
 (* ------------------------------------------------- FSM.Apply of one entry *)
@@ -163,26 +170,27 @@ Apply ==
          CASE e.k = "line"   -> ApplyLine(e)
            [] e.k = "delete" -> ApplyDelete(e)
            [] e.k = "config" -> exp' = e.e /\ UNCHANGED <<alive, la, nicks, members, badDelivery>>
-    /\ UNCHANGED <<now, leader, armed, todo, posts, swept, changes>>
+    /\ UNCHANGED <<now, leader, armed, todo, posts, swept, changes, configs>>
 
 (* ------------------------------------------------------------------- raft *)
 LeaderChange ==
     /\ changes < MaxChanges
     /\ \E m \in (Nodes \cup {None}) \ {leader} : leader' = m
     /\ changes' = changes + 1
-    /\ UNCHANGED <<now, armed, todo, pend, state, posts, swept>>
+    /\ UNCHANGED <<now, armed, todo, pend, state, posts, swept, configs>>
 
 Elect ==
     /\ leader = None
     /\ \E m \in Nodes : leader' = m
-    /\ UNCHANGED <<now, armed, todo, pend, state, posts, swept, changes>>
+    /\ UNCHANGED <<now, armed, todo, pend, state, posts, swept, changes, configs>>
 
 Next ==
     \/ Advance
     \/ \E n \in Nodes : Tick(n) \/ Propose(n)
-    \/ \E s \in Posting : Post(s, "PING", None) \/ Post(s, "PRIVMSG", None) \/ ClientDelete(s)
+    \/ \E s \in Links : Post(s, "PING", None)
+    \/ \E s \in Clients : Post(s, "PRIVMSG", None) \/ ClientDelete(s)
     \/ \E s \in Clients, x \in Clients : Post(s, "NICK", x)
-    \/ \E e \in Exps : SetConfig(e)
+    \/ \E e \in Exps \ {exp} : SetConfig(e)
     \/ Apply
     \/ LeaderChange
     \/ Elect
@@ -201,7 +209,7 @@ SweepRecs == UNION {swept[n] : n \in Nodes} \cup {e.rec : e \in SweepEntries}
 OnlyIdleExpire == \A r \in SweepRecs : SweepRecOK(r)
 
 \* a session that posts more often than the expiration is never swept
-ActiveNeverExpires == \A r \in SweepRecs : ~ \E p \in r.posts : ProtectedBy(p, r.T, r.exp, MaxLag)
+ActiveNeverExpires == \A r \in SweepRecs : r.prot = {}
 
 \* after a session has ended: not in the channel, its nickname free, nothing addressed to it
 ExpiredSessionGone ==
